@@ -52,7 +52,7 @@ CQ_STUBS = [
 PROPS = {}
 
 # properties whose checks are registered in MANIFEST.json (measured below the tier caps)
-REGISTERED = ["C01", "C02", "C03", "C05", "C07", "C08", "C09", "C10", "C11", "C12", "C14", "C15", "C16"]
+REGISTERED = ["C01", "C02", "C03", "C05", "C07", "C08", "C09", "C10", "C11", "C12", "C14", "C15", "C16", "C19"]
 
 NOT_APPLICABLE = [
     dict(property_id="C04", reason="2-run hyperproperty over the whole runtime incl. tokio scheduler, rand ChaCha (cpuid inline asm) and process-global counters; no kernel function decides it and whole-run encodings do not fit CBMC (a 2-event run is already >100k SSA steps)"),
@@ -435,5 +435,28 @@ PROPS["C18"] = dict(
         H(M18, "c18_typ_clause_len3", tier="experimental", bounds="every 3-byte string over {a,(,),','}"),
         H(M18, "c18_generics_def_len3", tier="experimental", bounds="every 3-byte string over {a,<,-,space}"),
         H(M18, "c18_endpoint_def_len3", tier="experimental", bounds="every 3-byte string over {a,[,],1,0,/}"),
+    ],
+)
+
+
+# --------------------------------------------------------------------------- C19 topology queries
+M19 = "net::topology::verif_c19"
+PROPS["C19"] = dict(
+    crate="des",
+    mounts=CQ_MOUNTS + [dict(file="des/src/net/topology.rs", decl="mod verif_c19", harness="c19.rs"),
+                        dict(file="des/src/net/module/mod.rs", decl="pub(crate) mod verif_mod", harness="net_module_stub.rs")],
+    prepend=DES_PREPEND,
+    functions=["des::net::topology::Topology::{edges,edges_by_id,bidirectional,connected}", "EdgesIter::next"],
+    level_text="Claimed for the derived graph queries only (bounded model checking on a directly built Topology with 3 nodes, <= 2 out-edges per node, symbolic edge presence and destinations - every such graph in one query): the global edge iterator yields every edge exactly once, in node order, attributed to the node that owns it (also behind edge-less nodes); the per-node iterator yields exactly that node's edges; bidirectional() equals its definition computed by a harness oracle (symmetric edge relation; out-degree <= 1 in the quick tier, <= 2 in the thorough tier). connected() (recursive visit with a growing Vec) did not finish in 900 s and is not decided. NOT decided: extraction from a simulation (from_modules / spanned need several ModuleContexts with wired gates - a 2-module instance did not leave symex in 300 s), dijkstra (returns an FxHashMap: hashbrown outside the encoding), filter_nodes (Vec::remove at a symbolic index).",
+    claim="The Topology value is assembled field by field (child module); nodes share one standalone module and two gates since only indices matter for the queries.",
+    assumptions=NR_STUBS[1:] + ["3 nodes, at most 2 out-edges each", "edge vectors pre-sized (no Vec growth under symbolic conditions)"],
+    outside=["Topology::from_modules / spanned (extraction from gate wiring)", "dijkstra (FxHashMap result)", "filter_nodes / filter_edges", "graphs with more than 3 nodes", "as_dot"],
+    harnesses=[
+        H(M19, "c19_edges_iter_attributes_owner", fs=4096, mem=16, bounds="all graphs on 3 nodes with <=2 out-edges per node; Topology::edges()"),
+        H(M19, "c19_edges_by_node", fs=4096, mem=16, bounds="same graphs; per-node iterator for a symbolic node"),
+        H(M19, "c19_bidirectional_definition_deg1", fs=4096, mem=16, bounds="all graphs on 3 nodes with <=1 out-edge per node; bidirectional() vs symmetric-relation oracle"),
+        H(M19, "c19_connected_definition_deg1", fs=4096, mem=30, tier="experimental", bounds="all graphs on 3 nodes with <=1 out-edge per node; connected() vs closure oracle"),
+        H(M19, "c19_bidirectional_definition", fs=4096, mem=20, timeout=2400, tier="thorough", bounds="<=2 out-edges per node; bidirectional() vs oracle"),
+        H(M19, "c19_connected_definition", fs=4096, mem=30, tier="experimental", bounds="<=2 out-edges per node; connected() vs closure oracle"),
     ],
 )
